@@ -507,9 +507,9 @@ func init() {
 			}
 			b.WriteString("]\n")
 		}
-		// TextRevEntitiesMap
-		{
-			cl, err := c03MapLit(r, "TextRevEntitiesMap")
+		// TextRevEntitiesMap, AttrRevEntitiesMap
+		for _, mp := range [][2]string{{"TextRevEntitiesMap", "textRevEntitiesMap"}, {"AttrRevEntitiesMap", "attrRevEntitiesMap"}} {
+			cl, err := c03MapLit(r, mp[0])
 			if err != nil {
 				return "", err
 			}
@@ -525,12 +525,12 @@ func init() {
 					return "", err
 				}
 				if len(k) != 1 {
-					return "", fmt.Errorf("TextRevEntitiesMap: key is not one byte")
+					return "", fmt.Errorf("%s: key is not one byte", mp[0])
 				}
 				rows = append(rows, c03kv{k: k, v: v})
 			}
 			sort.Slice(rows, func(i, j int) bool { return rows[i].k < rows[j].k })
-			b.WriteString("\n/-- html.TextRevEntitiesMap: (byte, replacement) -/\ndef textRevEntitiesMap : List (Char × List Char) := [")
+			fmt.Fprintf(&b, "\n/-- html.%s: (byte, replacement) -/\ndef %s : List (Char × List Char) := [", mp[0], mp[1])
 			for i, rw := range rows {
 				if i > 0 {
 					b.WriteString(", ")
